@@ -444,7 +444,13 @@ ReuseBases(ty) == {v \in {Base(Dom(ty)), Base2(Dom(ty))} : Admit(ty, v)}
 ReusePairsOf(ty) ==
   IF ty \in {"stanzaerror", "streamerror"} THEN ShapeBases(ty) \X ShapeBases(ty)
   ELSE LET d  == Dom(ty)
-           b2 == Base2(d)
+           \* the second base value; where the type's restriction (Admit) excludes it, the nearest admitted value
+           \* (one field taken from the first base) - otherwise every pair built on it would be dropped
+           b2 == IF Admit(ty, Base2(d)) THEN Base2(d)
+                 ELSE IF \E f \in DOMAIN d : Admit(ty, [Base2(d) EXCEPT ![f] = Base(d)[f]])
+                        THEN [Base2(d) EXCEPT ![CHOOSE f \in DOMAIN d : Admit(ty, [Base2(d) EXCEPT ![f] = Base(d)[f]])] =
+                                                Base(d)[CHOOSE f \in DOMAIN d : Admit(ty, [Base2(d) EXCEPT ![f] = Base(d)[f]])]]
+                        ELSE Base2(d)
            star == {[b2 EXCEPT ![c[1]] = c[2]] : c \in FieldChoices(d)}
            same == UNION {{<<[b2 EXCEPT ![f] = x], [b2 EXCEPT ![f] = y]>> : x, y \in d[f]}
                           : f \in {g \in DOMAIN d : Cardinality(d[g]) <= 6}}
